@@ -58,6 +58,37 @@ where
             (Ex::D(e), true) => Ex::D(e.clone().partial_iter_relaxed(seq.iter().copied(), MissingOpMode::Error)?),
         })
     }
+    pub fn convert(&self) -> ExResult<Self> {
+        Ok(match self {
+            Ex::F(e) => Ex::D(e.clone().to_deepex()?),
+            Ex::D(e) => Ex::F(FlatEx::from_deepex(e.clone())?),
+        })
+    }
+    pub fn is_deep(&self) -> bool {
+        matches!(self, Ex::D(_))
+    }
+    pub fn un(&self, name: &'static str) -> ExResult<Self> {
+        Ok(match self {
+            Ex::F(e) => Ex::F(e.clone().operate_unary(name)?),
+            Ex::D(e) => Ex::D(e.clone().operate_unary(name)?),
+        })
+    }
+    /// self `name` other (both of the same form)
+    pub fn bin(&self, other: &Self, name: &'static str) -> ExResult<Self> {
+        Ok(match (self, other) {
+            (Ex::F(a), Ex::F(b)) => Ex::F(a.clone().operate_binary(b.clone(), name)?),
+            (Ex::D(a), Ex::D(b)) => Ex::D(a.clone().operate_binary(b.clone(), name)?),
+            _ => panic!("harness: operands of different forms"),
+        })
+    }
+    /// substitute `with` (same form) for the variable `var`; every other variable is kept
+    pub fn subs_one(&self, var: Option<&str>, with: &Self) -> ExResult<Self> {
+        Ok(match (self, with) {
+            (Ex::F(a), Ex::F(b)) => Ex::F(a.clone().subs(&mut |n: &str| if Some(n) == var { Some(b.clone()) } else { None })?),
+            (Ex::D(a), Ex::D(b)) => Ex::D(a.clone().subs(&mut |n: &str| if Some(n) == var { Some(b.clone()) } else { None })?),
+            _ => panic!("harness: operands of different forms"),
+        })
+    }
     pub fn var_names(&self) -> Vec<String> {
         both!(self, e => e.var_names().to_vec())
     }
@@ -412,5 +443,6 @@ pub fn run(tier: Tier) -> i32 {
     let m = Bookkeeping { texts: Arc::new(texts), max_len: if tier.thorough() { 5 } else { 4 } };
     let st = explore(m, &mut rep, "c09", &format!("{n_texts} base expressions x flat/deep"));
     rep.count("unique_states", st.unique as u64);
+    crate::derived::run_derived(&mut rep, "C09", crate::derived::Focus::Diff, tier.thorough());
     rep.finish()
 }
